@@ -114,6 +114,10 @@ class Machine:
         self.layout = layout            # {'EntryBound': (size, align)}
         self.hooks = hooks or {}        # callee regex -> handler(machine, st, args, callee)
         self.z3_ms = 300
+        self.cache = {}
+        self.varmemo = {}
+        self.abstract = False       # counter-abstraction mode: unknown values are nondeterministic, loops closed by fixpoint
+        self.tracked = []           # [(heap key, path prefix)] state that unknown callees must not receive mutably
         self.cvc5_ms = 60000
         self.max_depth = max_depth
         self.stats = {"queries": 0, "obligations": 0, "solver_s": 0.0, "paths": 0, "pruned": 0,
@@ -128,6 +132,58 @@ class Machine:
         integer encoding of bit-vectors (--solve-bv-as-int=sum keeps the mod-2^64 semantics), which decides the
         linear size arithmetic of this module in milliseconds where bit-blasting needs minutes.  Anything still
         undecided is `Unsupported` (inconclusive), never a pass."""
+        t = time.time()
+        # cone of influence: conjuncts of the path condition that share no variable (transitively) with the goal cannot
+        # change the verdict (each was satisfiable when it was added); dropping them makes queries small and cacheable
+        exprs = self.slice(exprs)
+        key = (frozenset(str(e) for e in exprs[:-1]), str(exprs[-1])) if len(exprs) < 60 else None
+        if key is not None and key in self.cache:
+            self.stats["cache_hits"] = self.stats.get("cache_hits", 0) + 1
+            return self.cache[key]
+        res = self.check_uncached(exprs)
+        if key is not None:
+            self.cache[key] = res
+        self.stats["solver_s"] += time.time() - t
+        return res
+
+    def vars_of(self, e):
+        k = e.get_id()
+        if k in self.varmemo:
+            return self.varmemo[k][1]
+        out, stack, seen = set(), [e], set()
+        while stack:
+            x = stack.pop()
+            i = x.get_id()
+            if i in seen:
+                continue
+            seen.add(i)
+            if z3.is_const(x) and x.decl().kind() == z3.Z3_OP_UNINTERPRETED:
+                out.add(str(x))
+            else:
+                stack.extend(x.children())
+        self.varmemo[k] = (e, out)     # keeping e alive keeps its id from being reused
+        return out
+
+    def slice(self, exprs):
+        goal = exprs[-1]
+        need = set(self.vars_of(goal))
+        rest = [(e, self.vars_of(e)) for e in exprs[:-1] if not z3.is_true(e)]
+        keep, changed = [], True
+        while changed:
+            changed = False
+            nxt = []
+            for e, vs in rest:
+                if vs & need or not vs:
+                    keep.append(e)
+                    if not vs <= need:
+                        need |= vs
+                        changed = True
+                else:
+                    nxt.append((e, vs))
+            rest = nxt
+        return keep + [goal]
+
+    def check_uncached(self, exprs):
         t = time.time()
         s = z3.Solver()
         s.set("timeout", self.z3_ms)
@@ -147,7 +203,6 @@ class Machine:
             self.stats["by_cvc5_int"] = self.stats.get("by_cvc5_int", 0) + 1
         if self.smt_dump is not None:
             self.smt_dump.append((s.to_smt2(), "sat" if r == z3.sat else "unsat"))
-        self.stats["solver_s"] += time.time() - t
         return r == z3.sat, model
 
     def cvc5(self, s):
@@ -218,7 +273,7 @@ class Machine:
             byret = [f for f in cands if pat.search(f.ret)]
             if len(byret) == 1:
                 return byret[0]
-            if len(cands) == 1:
+            if len(cands) == 1 and ty in ("Entries", "Sorter", "SorterBuilder", "EntryBoundAlignedBuffer", "EntryBound", "sorter"):
                 return cands[0]
         if len(recv) > 1:
             raise Unsupported("ambiguous callee %s: %s" % (callee, [f.name for f in recv]))
@@ -271,6 +326,8 @@ class Machine:
                     key, path = v.key, v.path
                 elif isinstance(v, Slice):
                     return ("slice", v)
+                elif self.abstract and isinstance(v, Opaque):
+                    return ("opaque",)
                 else:
                     raise Unsupported("deref of %r in %s" % (v, s))
             elif p[0] == "field":
@@ -283,6 +340,8 @@ class Machine:
 
     def read_loc(self, st, key, path):
         if key not in st.heap:
+            if self.abstract:
+                return Opaque("uninitialised")
             raise Unsupported("read of uninitialised %r" % (key,))
         v = st.heap[key]
         for p in path:
@@ -332,6 +391,8 @@ class Machine:
         loc = self.locate(st, s)
         if loc[0] == "slice":
             return loc[1]
+        if loc[0] == "opaque":
+            return Opaque("through opaque pointer")
         return self.read_loc(st, loc[1], loc[2])
 
     # ------------------------------------------------------------------ operands / rvalues
@@ -364,6 +425,8 @@ class Machine:
             return self.read_place(st, o[5:])
         if o.startswith("const "):
             return self.const(o[6:])
+        if self.abstract or "::" in o:
+            return Opaque("fn item " + o[:40])
         raise Unsupported("operand: " + o)
 
     def cast(self, v, ty, kind):
@@ -461,6 +524,8 @@ class Machine:
             loc = self.locate(st, m.group(1))
             if loc[0] == "slice":
                 return loc[1]
+            if loc[0] == "opaque":
+                return Opaque("reborrow of opaque pointer")
             return Ref(loc[1], loc[2])
         m = re.match(r"^(\w+)\((.*)\)$", r)
         if m and m.group(1) in self.BIN:
@@ -478,6 +543,8 @@ class Machine:
             v = self.read_place(st, m.group(2))
             if isinstance(v, Enum):
                 return v.discr
+            if self.abstract and isinstance(v, Opaque):
+                return self.fresh("discr")
             raise Unsupported("discriminant of %r" % (v,))
         # aggregates
         m = re.match(r"^([\w:<>, \[\]&']+?) \{ (.*) \}$", r)
@@ -510,6 +577,8 @@ class Machine:
             st.ghost["stores"].append((base[1], idx, val))
             return
         loc = self.locate(st, dest)
+        if loc[0] == "opaque":
+            raise Unsupported("store through opaque pointer")
         if loc[0] != "loc":
             raise Unsupported("assign to slice place")
         self.write_loc(st, loc[1], loc[2], val)
@@ -520,8 +589,22 @@ class Machine:
             return
         m = re.match(r"^(.+?) = (.+);$", s)
         if not m:
+            if self.abstract and s.startswith(("Deinit", "SetDiscriminant", "Assume", "Intrinsic")):
+                return
             raise Unsupported("statement: " + s)
-        self.assign(st, m.group(1), self.rvalue(st, m.group(2)))
+        if not self.abstract:
+            self.assign(st, m.group(1), self.rvalue(st, m.group(2)))
+            return
+        try:
+            val = self.rvalue(st, m.group(2))
+        except Unsupported as u:
+            val = Opaque("unencoded rvalue: " + str(u)[:40])
+        try:
+            self.assign(st, m.group(1), val)
+        except Unsupported as u:
+            if "opaque" in str(u).lower():
+                return          # store through a pointer the abstraction does not track (cannot alias tracked state)
+            raise
 
     # ------------------------------------------------------------------ terminators
     def step(self, st):
@@ -529,6 +612,24 @@ class Machine:
         fr = st.frames[-1]
         stmts, term, cleanup = fr.fn.blocks[fr.bb]
         where = "%s bb%d" % (fr.fn.short, fr.bb)
+        if self.abstract:
+            sig = [st.ghost.get("created", 0), len([e_ for e_ in st.ghost["events"] if e_[0] not in ("unmodelled",)])]
+            for k_, v_ in st.heap.items():
+                if k_[0] == "L" and k_[1] == fr.fid and z3.is_expr(v_) and (z3.is_true(v_) or z3.is_false(v_) or z3.is_bv_value(v_)):
+                    sig.append((k_[2], str(v_)))
+            sig = (fr.fid, fr.bb, tuple(sorted(map(str, sig[2:]))), sig[0], sig[1], self.sig_extra(st))
+            seen = st.ghost.setdefault("seen", {})
+            cnt = seen.setdefault((fr.fid, fr.bb), [])
+            if sig in cnt:
+                self.stats["loops_closed"] = self.stats.get("loops_closed", 0) + 1
+                return []           # same abstract state as an earlier visit of this block: already explored from there
+            cnt.append(sig)
+            if len(cnt) > 48:
+                import os
+                if os.environ.get("MS_DEBUG"):
+                    for x in cnt[-3:]:
+                        print("SIG", x)
+                raise Bound("abstract state at %s does not stabilise" % where)
         for s in stmts:
             self.stmt(st, s)
         t = term
@@ -543,6 +644,8 @@ class Machine:
         m = re.match(r"^switchInt\((.+)\) -> \[(.*)\];$", t)
         if m:
             v = self.operand(st, m.group(1))
+            if isinstance(v, Opaque) and self.abstract:
+                v = self.fresh("nondet")
             if isinstance(v, Opaque):
                 raise Unsupported("branch on opaque value at %s (%s)" % (where, v.why))
             out, taken = [], []
@@ -555,7 +658,12 @@ class Machine:
                     kv = int(k)
                     cond = (v == z3.BoolVal(bool(kv))) if z3.is_bool(v) else (v == bv(kv, v.size()))
                     taken.append(cond)
-                if self.feasible(st, cond):
+                tb = fr.fn.blocks[tgt]
+                if not tb[0] and tb[1] == "unreachable;":
+                    continue        # rustc: this arm cannot be taken (exhaustive match)
+                nd = z3.is_const(v) and v.decl().kind() == z3.Z3_OP_UNINTERPRETED and str(v).split("!")[0] in ("discr", "nondet") \
+                    and not any(str(v) in str(c_) for c_ in st.pc[-6:])
+                if nd or self.feasible(st, cond):
                     s2 = st.fork()
                     s2.pc.append(cond)
                     s2.frames[-1].bb = tgt
@@ -614,6 +722,9 @@ class Machine:
 
     def on_end(self, st, how):  # overridden by harnesses
         pass
+
+    def sig_extra(self, st):    # overridden by harnesses: tracked counters as a string
+        return ""
 
     def do_return(self, st):
         fr = st.frames.pop()
@@ -678,6 +789,11 @@ class Machine:
         fn = self.resolve(callee)
         if fn is not None:
             return self.push_frame(st, fn, args, dest, ret_bb)
+        for a in args:
+            if isinstance(a, Ref):
+                for key, pre in self.tracked:
+                    if a.key == key and (a.path[:len(pre)] == tuple(pre) or tuple(pre)[:len(a.path)] == a.path):
+                        raise Unsupported("tracked state handed to an unmodelled callee: " + callee[:70])
         self.stats["unmodelled"].add(re.sub(r"<.*", "", callee)[:60] or callee[:60])
         st.ghost["events"].append(("unmodelled", where, callee[:80]))
         self.assign(st, dest, Opaque("result of " + callee[:50]))
@@ -816,8 +932,34 @@ class Machine:
             raise Unsupported("Vec::len of %r" % (v,))
         if re.search(r"^Vec::<.*>::new$", c):
             return VecM(bv(0))
+        if re.search(r"^Vec::<.*>::(push|drain|clear|pop|truncate|insert|remove|swap_remove|append|extend)(::<.*>)?$", c) and args and isinstance(args[0], Ref):
+            v = self.read_loc(st, args[0].key, args[0].path)
+            if isinstance(v, VecM):
+                op = re.search(r"::(push|drain|clear|pop|truncate|insert|remove|swap_remove|append|extend)(::<.*>)?$", c).group(1)
+                if op in ("push", "insert"):
+                    self.oblige(st, v.len != bv(2 ** 64 - 1), "overflow", where)
+                    v.len = v.len + bv(1)
+                    st.ghost["events"].append(("chunks.push", where, ""))
+                    return Struct("()", [])
+                if op in ("drain", "clear"):
+                    # drain(..): callers of this model only use the full range (checked syntactically by the harness)
+                    st.ghost["events"].append(("chunks." + op, where, c[-40:]))
+                    st.ghost["drained"] = v.len
+                    v.len = bv(0)
+                    return Opaque("drain iterator")
+                raise Unsupported("Vec::%s on the tracked chunk list" % op)
+            return NotImplemented
+        if re.search(r"mem::(take|replace|swap)::<Vec<", c) and args and isinstance(args[0], Ref):
+            v = self.read_loc(st, args[0].key, args[0].path)
+            if isinstance(v, VecM):
+                raise Unsupported("mem::take/replace on the tracked chunk list")
+            return NotImplemented
         if re.search(r"as Try>::branch$", c):
             e = args[0]
+            if self.abstract and isinstance(e, Opaque):
+                dsc = self.fresh("try")
+                st.pc.append(z3.Or(dsc == bv(0), dsc == bv(1)))
+                return Enum(dsc, {"Continue": (0, [Opaque("ok value")]), "Break": (1, [Opaque("residual")])})
             if not isinstance(e, Enum):
                 raise Unsupported("Try::branch of %r" % (e,))
             okv = e.variants.get("Ok", (0, [Opaque("no ok")]))[1]
